@@ -34,6 +34,21 @@ claimed.update({
    note="diff.go is copied verbatim from the working tree. The parser accepts both the standard one-character markers and this implementation's six-character markers.",
    technique="exhaustive enumeration of input pairs up to a length bound with an apply-the-diff oracle"),
 })
+E2 = "E2 explicit-state BFS over operation sequences on the instrumented real code (harness/bfs.go, seq.go, ideal.go)"
+claimed.update({
+ "C04": dict(engine=E2, design="5 (C04), 2 (E2), 4",
+   text="Breadth-first search over sequences of Add/Remove/WatchList calls (files, directories, symlinks to both, hard link, missing path, path through a non-directory, symlink loop, 256-byte name; f and d in seven equivalent spellings) interleaved with rm/mv/recreate/retarget-symlink/ln steps. Every transition replays the sequence on a fresh directory and a fresh Watcher of the instrumented real code, runs to quiescence, and compares with a reference watch-set model fed only by API results, the inotify syscalls seen at the seam, stat() and the raw bytes of each kernel read: WatchList as a set, error classes (errors.Is), failed calls leave the tables untouched, no panic, no duplicate events. States are deduplicated by a canonical form; a second phase applies every two-operation burst (no quiescence in between) from the shallow states.",
+   note="Bounds: full-spelling alphabet to depth 4 (quick) / 7 (thorough); one-spelling alphabet to depth 7 / fixed point; bursts of 2. Sequential histories only (concurrent callers are C07). The model follows the kernel in treating a watch as attached to the inode (hard-link corner cases are left out of the alphabet where property and kernel disagree).",
+   technique="explicit-state model checking: BFS over operation sequences on the real code with canonical-state hashing and a reference model"),
+ "C09": dict(engine=E2, design="5 (C09), 2 (E2), 4",
+   text="BFS to the fixed point (no new canonical state; ~480 states, ~130k transitions incl. all two-operation bursts) over {rm f, mv f g, mv g f, touch f, Add f, Remove f, open f, close fd, write f, write g, rm -r parent, mkdir parent, Add/Remove parent, Add/Remove via symlink}: after every transition the reference model decides which kernel notifications must, may or must not surface, what WatchList shows and what Remove returns. Because the fixed point is reached, the verdict holds for histories of any length over this alphabet.",
+   note="The open-descriptor rule and the 'unless the watched parent already did' rule are encoded as must/may in the model (DESIGN section 4).",
+   technique="explicit-state model checking to a fixed point on the real code against a reference model"),
+ "C12": dict(engine=E2, design="5 (C12), 2 (E2)",
+   text="In every quiescent state reached by the BFS the kernel's own mark list of the inotify descriptor (/proc/self/fdinfo: wd, inode, mask), both library tables (via the verif hook) and the reference model must coincide: no orphan mark, no listed path without a mark, wd[path[p]].path == p, table sizes == live watches; right after each successful Add a mark must sit on the inode the path names. Alphabet includes re-Add with the old inode kept alive by a hard link or an open descriptor, symlink retargeting, rename cycles. Quick: depth 8 + bursts; thorough: fixed point (depth 31, 6856 states) - which is what decides 'any number of cycles'.",
+   note="Kernel ground truth is fdinfo of the real descriptor; canonical-state abstraction argued in seq.go (wd renaming, cookie ring dropped at quiescence).",
+   technique="explicit-state model checking with kernel-side ground truth compared in every state; fixed point for the cycle clause"),
+})
 NA_REASON = "check not built yet (work in progress; DESIGN.md section 5 gives the planned decision procedure)"
 
 def main():
@@ -52,6 +67,8 @@ def main():
       "engines": [
         {"name": "E4", "path": "cmd/vxgen cmd/vpure", "serves_properties": ["C15", "C16", "C20"],
          "kind_free_text": "extraction of pure functions from the working tree + exhaustive enumeration of their finite input domains against independent references"},
+        {"name": "E2", "path": "harness/bfs.go harness/seq.go harness/ideal.go harness/fam_seq.go", "serves_properties": ["C04", "C09", "C12"],
+         "kind_free_text": "explicit-state BFS over operation sequences: successors by replay on fresh kernel objects, canonical-state hashing, reference model fed by seam syscalls and raw kernel reads"},
         {"name": "E1", "path": "engine/vinst engine/vsched engine/vsys harness", "serves_properties": sorted(k for k, v in claimed.items() if v["engine"] == E1),
          "kind_free_text": "source-to-source instrumentation of the working tree + cooperative scheduler + preemption-bounded DFS (iterative context bounding), 16 worker processes"},
       ],
